@@ -150,7 +150,7 @@ pub fn gen(rng: &mut Rng, n: usize, sink: &mut Sink, focus: &str) {
                 if out.starts_with("ok") && !out.ends_with("pend=-") {
                     let id = next_pend;
                     next_pend += 1;
-                    sink.exec(&format!("deliver {} fail", id));
+                    sink.exec(&format!("deliver {} fail {}", id, crate::enc::fail_code(rng)));
                     sink.exec(&format!("cb {}", id));
                     sink.exec(&format!("query {} getRefundToken {}", hex::encode(&gaddr), args(&[u.clone(), token_arg("EGLD", 0)])));
                     if rng.chance(1, 2) {
@@ -209,7 +209,7 @@ pub fn gen(rng: &mut Rng, n: usize, sink: &mut Sink, focus: &str) {
                         let id = next_pend;
                         next_pend += 1;
                         let ok = rng.chance(1, 6);
-                        sink.exec(&if ok { format!("deliver {} ok -", id) } else { format!("deliver {} fail", id) });
+                        sink.exec(&if ok { format!("deliver {} ok -", id) } else { format!("deliver {} fail {}", id, crate::enc::fail_code(rng)) });
                         if rng.chance(1, 4) {
                             sink.exec(&format!("tx {} {} withdrawRefundToken 0 - {}", hex::encode(&caller), hex::encode(&gaddr), args(&[token_arg("EGLD", 0)])));
                         }
@@ -386,7 +386,7 @@ pub fn gen(rng: &mut Rng, n: usize, sink: &mut Sink, focus: &str) {
                         } else if rng.chance(1, if focus == "C16" { 4 } else { 2 }) {
                             format!("deliver {} ok {}", id, if rng.chance(1, 2) { "-".to_string() } else { "aa,bb".to_string() })
                         } else {
-                            format!("deliver {} fail", id)
+                            format!("deliver {} fail {}", id, crate::enc::fail_code(rng))
                         };
                         sink.exec(&line);
                         pend[i].2 = true;
